@@ -10,8 +10,8 @@ CHECKS = {
    technique="preemption-bounded stateless exploration of thread interleavings (controlled scheduler) + explicit-state BFS over cache states + race-detector pass",
    design="3/C13"),
  "C19": dict(
-   text="Serialised ATNs extracted from the six generated sources and six .interp files are decoded by an own deserialiser and the Go x JS x Java automata are walked in lock step from every rule and mode start state (state kind, rule, flags, decision number, every transition with label sets compared by content; dangling states must coincide); rule/literal/symbolic/channel/mode names and .tokens numbering are compared across packages and with the names declared in the .g4 files; generated listeners are complete and the hand-written Go listener names existing rules only; grammar-derived sentences are replayed on the generated Go lexer and parser.",
-   note="JS and Java parsers cannot be executed offline: they are bound through automaton and vocabulary identity; token numbering rule of ANTLR (tokens{} first, then non-fragment rules without type()) is assumed.",
+   text="Serialised ATNs extracted from the six generated sources and six .interp files are decoded by an own deserialiser and the Go x JS x Java automata are walked in lock step from every rule and mode start state (state kind, rule, flags, decision number, every transition with label sets compared by content; dangling states must coincide); rule/literal/symbolic/channel/mode names and .tokens numbering are compared across packages and with the names declared in the .g4 files; generated listeners are complete and the hand-written Go listener names existing rules only; the rule-body skeletons of the generated Go, TypeScript and Java parsers (states, matches, rule calls, decisions, look-ahead token sets) are compared element by element; grammar-derived sentences, their single-token mutations and subtree replacements are replayed on the generated Go lexer and parser.",
+   note="JS and Java parsers cannot be executed offline: they are bound through automaton, vocabulary and rule-body skeleton identity; token numbering rule of ANTLR (tokens{} first, then non-fragment rules without type()) is assumed.",
    technique="explicit-state lock-step exploration of the product of the three automata plus replay of grammar-derived sentences on the implementation",
    design="3/C19"),
  "C08": dict(
